@@ -113,7 +113,24 @@ class SymbolicExpression(Generic[T], ABC):
         for k, v in children.items():
             # With graph structure, do not copy nodes; just connect an edge.
             v._node_.parent = self._node_
+        # an expression that gets a new parent may have been evaluated already, on its own or as part of another
+        # expression: which variables it (and everything beneath it) has to provide is memoised per node and was
+        # computed for the structure above it as it was then.
+        SymbolicExpression._forget_memoised_required_variables_()
         return tuple(children.values())
+
+    @staticmethod
+    def _forget_memoised_required_variables_():
+        """
+        Drop what _required_variables_from_child_ memoised, for every kind of expression.
+        """
+        classes = [SymbolicExpression]
+        while classes:
+            cls = classes.pop()
+            classes.extend(cls.__subclasses__())
+            method = cls.__dict__.get('_required_variables_from_child_')
+            if hasattr(method, 'cache_clear'):
+                method.cache_clear()
 
     def _create_node_(self):
         self._node_ = RWXNode(self._name_, data=self, color=self._plot_color_)
